@@ -133,6 +133,12 @@ func c12ByLanguage(p *Program, r *Report) bool {
 	s := NewSummarizer(p, g.Regexes)
 	oe := newOutEval(p, s)
 	oe.Tokens = true
+	s.ExtraTerm = func(v ssa.Value) (Term, bool) {
+		if ex, ok := v.(*ssa.Extract); ok {
+			return oe.tokenTerm(ex)
+		}
+		return Term{}, false
+	}
 	fr := oe.topFrame(fn)
 	oe.seedTokens(fr)
 	var alts []*lx
@@ -202,12 +208,12 @@ func c12ByLanguage(p *Program, r *Report) bool {
 			if y.Kind == "buf" {
 				fmt.Printf("  buf %s: aware=%v pathmode=%v\n", y.Buf.fn.Name(), oe.lenAware(y.Buf), oe.pathModeApplies(y.Buf))
 				if dd, err := oe.compile(y, L, map[*lx]*relang.DFA{}); err == nil {
-					fmt.Printf("     accepts \"\"=%v \" \"=%v \"a\"=%v \"%%2c\"=%v \" , a\"=%v\n", dd.Accepts(""), dd.Accepts(" "), dd.Accepts("a"), dd.Accepts("%2c"), dd.Accepts(" , a"))
+					fmt.Printf("     accepts \"\"=%v \" \"=%v \"a\"=%v \"%%2c\"=%v \" , a\"=%v js=%v\n", dd.Accepts(""), dd.Accepts(" "), dd.Accepts("a"), dd.Accepts("%2c"), dd.Accepts(" , a"), dd.Accepts("javascript:x"))
 				}
 			}
 			if y.Kind == "term" || y.Kind == "cutprefix" || y.Kind == "cutsuffix" {
 				if dd, err := oe.compile(y, L, memo); err == nil {
-					fmt.Printf("  piece %s: accepts \",\"=%v \"a,\"=%v \",a\"=%v \"\"=%v\n", trunc(y.String(), 60), dd.Accepts(","), dd.Accepts("a,"), dd.Accepts(",a"), dd.Accepts(""))
+					fmt.Printf("  piece %s: accepts \",\"=%v \"a,\"=%v \",a\"=%v \"\"=%v js=%v\n", trunc(y.String(), 60), dd.Accepts(","), dd.Accepts("a,"), dd.Accepts(",a"), dd.Accepts(""), dd.Accepts("javascript:x"))
 				}
 			}
 			for _, pp := range y.Parts {
